@@ -36,6 +36,11 @@ def main():
     for h in req.get('decompile_before_install', []):
         try: P.decompile_script(bytes.fromhex(h))
         except BaseException: pass
+    pre_scripts = None
+    if req.get('script_objects_before_install'):
+        # Script objects made while the byte is still an ordinary NOP (their source says NOP<code>) ...
+        try: pre_scripts = (T.Script.from_src('true true'), T.Script.from_src(f"NOP{req['code']} d2 true"))
+        except BaseException: pre_scripts = None
     if kind:
         def fork(tape, stack, cache):
             """reads the count as NOP does, removes that many items, may raise"""
@@ -53,6 +58,13 @@ def main():
             print(json.dumps({'install_error': type(e).__name__ + ': ' + str(e)[:200]}))
             return
     out = {'auth': [], 'compile': [], 'decompile': [], 'rejected': rejected}
+    if pre_scripts is not None:
+        # ... are still the same bytes after the fork is installed: joining them is concatenation, and the joined script authorizes as before
+        try:
+            joined = pre_scripts[0] + pre_scripts[1]
+            out['script_add'] = joined.bytes.hex() if joined.bytes == pre_scripts[0].bytes + pre_scripts[1].bytes else 'DIFFERENT:' + joined.bytes.hex()
+        except BaseException as e:
+            out['script_add'] = 'ERR:' + type(e).__name__
     for scripts in req.get('auth', []):
         try:
             out['auth'].append(bool(F.run_auth_scripts([bytes.fromhex(s) for s in scripts])))
